@@ -21,6 +21,7 @@ def build_driver():
 NFLAGS = 5
 FLAG_NAMES = ("maskedAccessThrows", "convertDense", "sliceEmptyBackward", "ifelseConstRead", "maskOnMaskedHonoured")
 AS_WRITTEN = (0,) * NFLAGS
+CURRENT = (1, 1, 1, 1, 0)          # Cfg.current of Model/FixedArray.lean: what the primary theorems are stated for
 
 
 def cfg_args(cfg):
@@ -28,7 +29,7 @@ def cfg_args(cfg):
     return [str(int(x)) for x in c]
 
 
-def run_model(text, cfg=AS_WRITTEN, timeout=1200):
+def run_model(text, cfg=CURRENT, timeout=1200):
     rc, out = lib.sh([DRV] + cfg_args(cfg), stdin=text, timeout=timeout)
     return rc, out.split("\n")
 
@@ -74,7 +75,7 @@ class Server:
 _servers = {}
 
 
-def server(kind, cls="IntArray", cfg=(0, 0)):
+def server(kind, cls="IntArray", cfg=CURRENT):
     key = (kind, cls, tuple(cfg))
     sv = _servers.get(key)
     if sv is None or sv.p.poll() is not None:
